@@ -3,7 +3,12 @@
 Leg M: TLC checks (MC_Env) for every presence pattern of 4 names over the data and context layers
        (the transforms layer is fixed) x 7 formulas: sufficiency and necessity of the required
        variables as predicted by the resolution order data > context > transforms; and for every
-       column order x left-hand side that '.' expands to the unused data columns in data order.
+       column order x left-hand side that '.' expands to the unused data columns in data order, whatever
+       the right-hand side says about the intercept around it (`0 + .`, `-1 + .`, `. - 1`, `+.`, ...:
+       DotRhs / HasIntercept) and whether or not the parser inserts an intercept.
+       Two quoted names whose identifier-safe placeholders coincide (`x y`, `x-y`) inside one python
+       factor are two names to the model ("q", "r"): every presence pattern of the two over data and
+       context, with the same sufficiency / necessity laws.
 Leg R: every case is executed with real frames, context mappings and the real TRANSFORMS:
        Formula.required_variables, success or FactorEvaluationError, cells (data and context hold
        different numbers, so the source of a value is observable), variables_by_source,
@@ -19,10 +24,13 @@ import numpy
 from ..common import Ctx, pmap, jhash
 from ..tlc import MachineryError, read_emitted, run_tlc, workdir
 
-DATA = {"x": [1.0, 2.0, 3.0], "z": [4.0, 5.0, 6.0], "I": [50.0, 60.0, 70.0], "q": [2.0, 2.0, 5.0]}
-COLNAME = {"x": "x", "z": "z", "I": "I", "q": "x y"}
+DATA = {"x": [1.0, 2.0, 3.0], "z": [4.0, 5.0, 6.0], "I": [50.0, 60.0, 70.0], "q": [2.0, 2.0, 5.0], "r": [3.0, 1.0, 4.0]}
+COLNAME = {"x": "x", "z": "z", "I": "I", "q": "x y", "r": "x-y"}
 # "q" stands for any column whose name must be quoted: with a blank, a python keyword, a leading digit, a python constant, a dot
 QSPELLINGS = ["x y", "class", "1a", "None", "p.q", "log.q"]
+# "r" stands for a second quoted column whose placeholder inside python code is the same as that of "q": for every spelling of
+# "q" a different name that the sanitizer maps to the same identifier (x_y, _class, _1a, _None, p_q, log_q)
+RSPELLINGS = {"x y": "x-y", "class": "-class", "1a": "-1a", "None": "-None", "p.q": "p q", "log.q": "log q"}
 BYKEY = {}
 
 
@@ -35,6 +43,8 @@ def ctx_for(names):
             c["z"] = numpy.array([7.0, 8.0, 9.0])
         elif n == "q":
             c[COLNAME["q"]] = numpy.array([11.0, 12.0, 13.0])
+        elif n == "r":
+            c[COLNAME["r"]] = numpy.array([21.0, 22.0, 23.0])
         elif n == "I":
             c["I"] = lambda v: v + 1000
     return c
@@ -94,7 +104,7 @@ def observe(formula, data_names, ctx_names, cform="dict"):
 def expected_of(case):
     if not case["ok"]:
         return {"ok": False}
-    return {"ok": True, "names": [(c["name"].replace("q", COLNAME["q"]) if c["name"] in ("q", "q:x") else c["name"]).replace("x y", COLNAME["q"]) for c in case["columns"]],
+    return {"ok": True, "names": [(c["name"].replace("q", COLNAME["q"]) if c["name"] in ("q", "q:x") else c["name"]).replace("`x-y`", "`" + COLNAME["r"] + "`").replace("x y", COLNAME["q"]) for c in case["columns"]],
             "cells": [[float(v) for v in c["vals"]] for c in case["columns"]], "sources": dict(case["sources"]),
             "required_after": sorted(case["required_after"])}
 
@@ -104,11 +114,11 @@ def replay_resolve(case):
         return _replay_resolve(case, case["formula"])
     bad, n = [], 0
     for sp in QSPELLINGS:
-        COLNAME["q"] = sp
+        COLNAME["q"], COLNAME["r"] = sp, RSPELLINGS[sp]
         try:
-            b, k = _replay_resolve(case, case["formula"].replace("`x y`", "`" + sp + "`"))
+            b, k = _replay_resolve(case, case["formula"].replace("`x-y`", "`" + RSPELLINGS[sp] + "`").replace("`x y`", "`" + sp + "`"))
         finally:
-            COLNAME["q"] = "x y"
+            COLNAME["q"], COLNAME["r"] = "x y", "x-y"
         bad += b
         n += k
     return bad, n
@@ -146,7 +156,7 @@ def _replay_resolve(case, formula):
                 bad.append({**base, "why": f"{what}: variables_by_source[{src}]", "observed": obs["by_source"], "expected": inv})
 
     try:
-        req = sorted({"q" if str(v) == COLNAME["q"] else str(v) for v in Formula(formula).required_variables})
+        req = sorted({"q" if str(v) == COLNAME["q"] else "r" if str(v) == COLNAME["r"] else str(v) for v in Formula(formula).required_variables})
     except Exception as e:  # noqa
         req = "EXC:" + type(e).__name__
     if req != sorted(case["required_before"]):
@@ -186,23 +196,40 @@ def replay_dot(case):
     # a column counts as used on the left-hand side however it is used there: by name, or inside a python expression
     # (by name / inside an arithmetic expression / through attribute access)
     wraps = [quote, (lambda v: "{" + quote(v) + " + 0}"), (lambda v: "{" + quote(v) + ".T}")]
-    bad = []
-    for wrap in (wraps if lhs else wraps[:1]):
-        formula = (" + ".join(wrap(v) for v in lhs) + " ~ 0 + .") if lhs else "0 + ."
+    from formulaic.parser import DefaultFormulaParser
+
+    # the right-hand side as the model spells it (case["rhs"]: `0 + .`, `-1 + .`, `. - 1`, `+.`, ...); written with blanks, and - for
+    # the plain left-hand side - also without any (`y~-1+.`): the tokens are the same, so is the expansion
+    named = lambda terms: ["Intercept" if t == "1" else t for t in terms]
+    bad, n = [], 0
+    for wrap, sep in ([(w, " ") for w in (wraps if lhs else wraps[:1])] + [(quote, "")]):
+        left = (sep + "+" + sep).join(wrap(v) for v in lhs)
+        rhs = case["rhs"].replace(" ", sep)
+        formula = (left + sep + "~" + sep + rhs) if lhs else rhs
         base = {"formula": formula, "columns": cols}
         try:
             mm = model_matrix(formula, df, context={})
-            rhs = mm.rhs if lhs else mm
-            got = list(rhs.model_spec.column_names)
-            if got != case["dot"]:
-                bad.append({**base, "why": "'.' expansion", "observed": got, "expected": case["dot"]})
+            side = mm.rhs if lhs else mm
+            got = list(side.model_spec.column_names)
+            if got != named(case["terms"]):
+                bad.append({**base, "why": "'.' expansion", "observed": got, "expected": named(case["terms"])})
+            # the variables the expanded side requires are the columns '.' stands for
+            req = sorted(str(v) for v in side.model_spec.required_variables)
+            if req != sorted(case["dot"]):
+                bad.append({**base, "why": "'.' expansion: required variables of the expanded side", "observed": req, "expected": sorted(case["dot"])})
             f2 = Formula(formula, _context={"__formulaic_variables_available__": cols})
             terms = [str(t) for t in (f2.rhs if lhs else f2)]
-            if terms != case["dot"]:
-                bad.append({**base, "why": "'.' expansion with an explicit available-variable list", "observed": terms, "expected": case["dot"]})
+            if terms != case["terms"]:
+                bad.append({**base, "why": "'.' expansion with an explicit available-variable list", "observed": terms, "expected": case["terms"]})
+            # a parser that inserts no intercept of its own: the same columns (HasIntercept starting from FALSE)
+            f3 = Formula(formula, _parser=DefaultFormulaParser(include_intercept=False), _context={"__formulaic_variables_available__": cols})
+            terms = [str(t) for t in (f3.rhs if lhs else f3)]
+            if terms != case["terms_noauto"]:
+                bad.append({**base, "why": "'.' expansion with an explicit available-variable list, parser without automatic intercept", "observed": terms, "expected": case["terms_noauto"]})
         except Exception as e:  # noqa
             bad.append({**base, "why": "exception", "observed": type(e).__name__ + ": " + str(e)[:120]})
-    return bad, 2 * (3 if lhs else 1)
+        n += 3
+    return bad, n
 
 
 CAPTURE_SRC = """
